@@ -285,3 +285,14 @@ impl From<u16> for RCODE {
         }
     }
 }
+
+/// verification hook: decode a single domain name
+#[cfg(simple_dns_verif)]
+pub mod verif {
+    /// Decodes the name starting at `position` of `data`; returns it with the cursor after it
+    pub fn parse_name(data: &[u8], position: usize) -> crate::Result<(crate::Name<'_>, usize)> {
+        let mut position = position;
+        let name = <crate::Name as super::WireFormat>::parse(data, &mut position)?;
+        Ok((name, position))
+    }
+}
